@@ -11,21 +11,26 @@
    ignore_apply       optimizers.py:69-109 ignore_grads_haiku *)
 From Coq Require Import ZArith QArith Qminmax Qabs List Bool.
 From FV Require Import Common.ListX Common.CMonoid Common.NanQ Common.QVec.
+From FV Require gen.Gen_c17_agnostic gen.Gen_c17_hyp_cluster gen.Gen_c17_apfl.
 Import ListNotations.
 Local Open Scope Q_scope.
 
 (* ---- agnostic: exponentiated gradient and the window ------------------------------------ *)
-Definition eg_raw (w e : list Q) : list Q := map (Qmax 0) (map2 Qmult w e).
+(* same shape as the translated code (gen/Gen_c17_agnostic.v, update_domain_weights_eg):
+   new = w * e; new = maximum(new, zeros_like(new)); new / sum(new) *)
+Definition eg_raw (w e : list Q) : list Q := let m := map2 Qmult w e in map2 Qmax m (map (fun _ => 0) m).
 Definition eg_update (w e : list Q) : list Q := let r := eg_raw w e in map (fun x => x / qsum r) r.
 
 Fixpoint eg_run (w : list Q) (es : list (list Q)) : list Q :=
   match es with [] => w | e :: r => eg_run (eg_update w e) r end.
 
-Definition window_update {A} (win : list A) (x : A) : list A := tl win ++ [x].
+(* the TRANSLATED expression domain_window[1:] + [sum_domain_num] *)
+Definition window_update {A} (win : list A) (x : A) : list A := Gen_c17_agnostic.window_shift win x.
 Definition window_run {A} (init hist : list A) : list A := fold_left window_update hist init.
 
 (* ---- APFL: coefficients and the per-client table -------------------------------------------- *)
-Definition clip01 (x : Q) : Q := Qmin (Qmax x 0) 1.
+(* jnp.clip(x, lo, hi) = minimum(maximum(x, lo), hi) with the TRANSLATED bounds *)
+Definition clip01 (x : Q) : Q := Qmin (Qmax x Gen_c17_apfl.apfl_clip_lo) Gen_c17_apfl.apfl_clip_hi.
 Definition apfl_coef_step (lr a g : Q) : Q := clip01 (a - lr * g).
 Definition apfl_run (lr a0 : Q) (gs : list Q) : Q := fold_left (apfl_coef_step lr) gs a0.
 
@@ -74,14 +79,14 @@ Definition cluster_sums (K dim : nat) (cl : list hclient) : list (vec * Q) :=
 
 (* weighted average, or None when the cluster saw no example *)
 Definition cluster_delta (st : vec * Q) : option vec :=
-  if Qltb 0 (snd st) then Some (vscale (/ snd st) (fst st)) else None.
+  Gen_c17_hyp_cluster.cluster_delta_gen (fun s n => vscale (/ n) s) (fst st) (snd st).
 
 Definition cluster_deltas (K dim : nat) (cl : list hclient) : list (option vec) :=
   map cluster_delta (cluster_sums K dim cl).
 
 (* the server step for one cluster, generic in the server optimizer *)
 Definition hyp_server_step {S} (opt : vec -> S -> vec -> S * vec) (d : option vec) (s : S) (p : vec) : S * vec :=
-  match d with None => (s, p) | Some d => opt d s p end.
+  Gen_c17_hyp_cluster.hyp_server_step_gen opt d s p.
 
 (* SGD with momentum as optax implements it: trace' = g + m * trace, p' = p - lr * trace' *)
 Definition sgd_mom (lr mom : Q) (g t p : vec) : vec * vec :=
